@@ -510,7 +510,7 @@ func TestC21(t *testing.T) {
 		"per world a list of requests ReadFilter / ReadGroup(by 0-3 keys) / ReadGroup(none) with ranges from the grid (+-1, extremes) and random predicates (depth <= 3; = != =~ !~ on tags, _measurement, _field, absent keys, empty literals; AND/OR/parentheses). " +
 		"non-trivial: >= 1 row must be returned and the predicate excludes a stored row or the range clips a stored row; distinct = hash(world setup, request)")
 	r.Assume("rows returned with an empty or nil cursor are ignored (consumers skip them); the order of series inside a group and in filter reads is not asserted; a missing group-key value may sort first or last, consistently")
-	nWorlds := r.N(24, 500)
+	nWorlds := r.N(72, 500)
 	perWorld := r.N(34, 40)
 	only := os.Getenv("VERIF_ONLY")
 	for wi := 0; wi < nWorlds; wi++ {
